@@ -119,7 +119,7 @@ RefusedIsNoOp ==
 
 \* ---------------------------------------------------------------- the histories
 Ints == {g \in {P.globals[i].n : i \in DOMAIN P.globals} : TRUE}
-Knots == {k \in DOMAIN P.knots : P.knots[k].kind = "knot"}
+Knots == {k \in DOMAIN P.knots : P.knots[k].kind = "knot" /\ P.knots[k].params = <<>>}       \* (a host jump passes no arguments)
 
 Init == h = H!Init /\ n = 0
 
